@@ -519,6 +519,37 @@ pub fn l_run(c: &LCase) -> Outcome {
     }
 }
 
+/// libFuzzer entry: bring a decoded case into the domain of `c_strategy`
+pub fn c_fuzz_domain(c: &mut CCase) -> bool {
+    c.width %= 4;
+    c.n0 %= 80;
+    c.ops.truncate(90);
+    for o in c.ops.iter_mut() {
+        if let COp::HubFill(_, k, v) = o {
+            *k = 20 + *k % 40;
+            v.truncate(59);
+            while v.len() < 30 {
+                let x = v.len() as u16;
+                v.push(x.wrapping_mul(2749));
+            }
+        }
+    }
+    true
+}
+
+/// libFuzzer entry: bring a decoded case into the domain of `l_strategy`
+pub fn l_fuzz_domain(c: &mut LCase) -> bool {
+    c.width %= 4;
+    c.ops.truncate(120);
+    for o in c.ops.iter_mut() {
+        if let LOp::AddNode(k, v) = o {
+            *k %= 3;
+            v.truncate(3);
+        }
+    }
+    true
+}
+
 pub fn property() -> Property {
     Property {
         id: "C05",
@@ -529,9 +560,9 @@ pub fn property() -> Property {
         ],
         both_profiles: false,
         subs: vec![
-            sub("csr/history", 200_000, 3_000_000, c_strategy, c_run),
+            sub_fuzz("csr/history", 200_000, 3_000_000, c_strategy, c_run, c_fuzz_domain),
             sub("csr/from_sorted_edges", 600_000, 20_000_000, s_strategy, s_run),
-            sub("list/history", 300_000, 8_000_000, l_strategy, l_run),
+            sub_fuzz("list/history", 300_000, 8_000_000, l_strategy, l_run, l_fuzz_domain),
         ],
     }
 }
